@@ -365,3 +365,60 @@ def _gen_in(av, choice):
                 return c
         raise _NoSample('neg')
     return cands[choice % len(cands)]
+
+
+# ======================================================================= independent recogniser
+class Earley:
+    """Earley recogniser over the grammar's productions (independent of the LALR tables): decides whether a
+    token-kind sequence is a sentence of the context-free grammar the tables were built from."""
+
+    def __init__(self, d):
+        self.rhs = [tuple(p.prod) for p in d.prods]
+        self.lhs = [p.name for p in d.prods]
+        self.by_lhs = defaultdict(list)
+        for i, n in enumerate(self.lhs):
+            if i:
+                self.by_lhs[n].append(i)
+        self.start = d.prods[0].prod[0]
+        self.nullable = set()
+        ch = True
+        while ch:
+            ch = False
+            for i in range(1, len(self.rhs)):
+                if self.lhs[i] not in self.nullable and all(s in self.nullable for s in self.rhs[i]):
+                    self.nullable.add(self.lhs[i])
+                    ch = True
+
+    def accepts(self, kinds):
+        n = len(kinds)
+        S = [dict() for _ in range(n + 1)]     # item (prod, dot, origin) -> True
+        order = [[] for _ in range(n + 1)]
+
+        def add(k, it):
+            if it not in S[k]:
+                S[k][it] = True
+                order[k].append(it)
+        for p in self.by_lhs[self.start]:
+            add(0, (p, 0, 0))
+        for k in range(n + 1):
+            i = 0
+            while i < len(order[k]):
+                p, dot, org = order[k][i]
+                i += 1
+                rhs = self.rhs[p]
+                if dot < len(rhs):
+                    sym = rhs[dot]
+                    if sym in self.by_lhs:
+                        for q in self.by_lhs[sym]:
+                            add(k, (q, 0, k))
+                        if sym in self.nullable:
+                            add(k, (p, dot + 1, org))
+                    elif k < n and kinds[k] == sym:
+                        add(k + 1, (p, dot + 1, org))
+                else:
+                    lhs = self.lhs[p]
+                    for (q, d2, o2) in list(order[org]):
+                        r2 = self.rhs[q]
+                        if d2 < len(r2) and r2[d2] == lhs:
+                            add(k, (q, d2 + 1, o2))
+        return any(self.lhs[p] == self.start and dot == len(self.rhs[p]) and org == 0 for (p, dot, org) in S[n])
